@@ -81,6 +81,9 @@ func (x *g) genService(i int, used map[string]bool) {
 	mused := map[string]bool{}
 	for j := 0; j < nm; j++ {
 		x.genMethod(sv, j, mused)
+		if j == 0 && nm < 3 && x.plainArrayOf[sv.Name] != "" {
+			nm = 3 // the plain-array gadget needs the methods that return the collection (dynamic view, fixed view)
+		}
 	}
 	if (x.o.Profile == "openapi" || x.chance(1, 10)) && (!x.o.Runtime || x.o.Files) && !sv.NoHTTP && x.chance(1, 2) {
 		sv.Files = append(sv.Files, &spec.FileServer{Path: fmt.Sprintf("/static%d/{*filepath}", i), File: "public"})
@@ -241,6 +244,9 @@ func (x *g) genMethod(sv *spec.Service, j int, used map[string]bool) {
 	rk := 0
 	if !streaming {
 		rk = x.r.Intn(10)
+		if x.o.Profile == "views" && (len(sv.Methods) == 1 || len(sv.Methods) == 2) && x.plainArrayOf[sv.Name] != "" {
+			rk = 3 // the method after a plain-array method returns the collection of the same type
+		}
 	}
 	textResult := !streaming && x.o.Profile != "grpc" && x.o.Profile != "views" && (x.o.Profile == "http-loc" && x.chance(1, 5) || x.chance(1, 14))
 	switch {
@@ -281,14 +287,52 @@ func (x *g) genMethod(sv *spec.Service, j int, used map[string]bool) {
 				// the nested-view gadget types come last: the deepest ones are returned more often
 				t = rts[len(rts)-1-x.r.Intn(2)]
 			}
-			if x.chance(1, 4) {
+			if x.o.Profile == "views" && len(sv.Methods) == 2 && x.plainArrayOf[sv.Name] != "" {
+				// ... and a third method returns the same collection and lets the service choose the view (next to the
+				// method above, whose view is FIXED to "default")
+				for _, c := range rts {
+					if c.Name == x.plainArrayOf[sv.Name] {
+						t = c
+					}
+				}
+				m.Result = &spec.Attr{Type: &spec.Type{Kind: spec.Array, Collection: true, Elem: &spec.Attr{Type: &spec.Type{Kind: spec.Ref, Ref: t.Name}}}}
+				x.s.AddFeature("result-collection", "result-dynamic-view-after-fixed-default")
+			} else if x.o.Profile == "views" && len(sv.Methods) == 1 && x.plainArrayOf[sv.Name] != "" {
+				// the collection of the type the first method returns as a plain array, view fixed to "default"
+				for _, c := range rts {
+					if c.Name == x.plainArrayOf[sv.Name] {
+						t = c
+					}
+				}
+				m.Result = &spec.Attr{Type: &spec.Type{Kind: spec.Array, Collection: true, Elem: &spec.Attr{Type: &spec.Type{Kind: spec.Ref, Ref: t.Name}}}, View: "default"}
+				x.s.AddFeature("result-collection", "result-fixed-view", "result-collection-after-plain-array")
+			} else if x.o.Profile == "views" && len(sv.Methods) == 0 && x.chance(1, 3) {
+				// a type that requires attributes its default view leaves out
+				found := false
+				for _, c := range rts {
+					if requiredOutsideDefaultView(c) {
+						t, found = c, true
+					}
+				}
+				if !found {
+					t = x.genItemType()
+				}
+				if x.plainArrayOf == nil {
+					x.plainArrayOf = map[string]string{}
+				}
+				x.plainArrayOf[sv.Name] = t.Name
+				// a plain array of the result type (no projection: every attribute travels), declared BEFORE the methods
+				// that return the type or its collection under a view: both shapes share response body type names
+				m.Result = &spec.Attr{Type: &spec.Type{Kind: spec.Array, Elem: &spec.Attr{Type: &spec.Type{Kind: spec.Ref, Ref: t.Name}}}}
+				x.s.AddFeature("result-array-of-resulttype")
+			} else if x.chance(1, 4) {
 				m.Result = &spec.Attr{Type: &spec.Type{Kind: spec.Array, Collection: true, Elem: &spec.Attr{Type: &spec.Type{Kind: spec.Ref, Ref: t.Name}}}}
 				x.s.AddFeature("result-collection")
 			} else {
 				m.Result = &spec.Attr{Type: &spec.Type{Kind: spec.Ref, Ref: t.Name}}
 				x.s.AddFeature("result-resulttype")
 			}
-			if len(t.Views) > 1 && x.chance(1, 4) {
+			if len(t.Views) > 1 && m.Result.View == "" && x.chance(1, 4) && (m.Result.Type.Kind != spec.Array || m.Result.Type.Collection) {
 				m.Result.View = t.Views[x.r.Intn(len(t.Views))].Name
 				x.s.AddFeature("result-fixed-view")
 			}
@@ -1007,6 +1051,48 @@ func (x *g) genResponses(sv *spec.Service, m *spec.Method) {
 		x.s.AddFeature("response-content-type-text", "response-text-"+rt.Kind)
 	}
 	h.Responses = append(h.Responses, r)
+}
+
+// genItemType adds a result type whose default and tiny views leave out required attributes.
+func (x *g) genItemType() *spec.UserType {
+	it := &spec.UserType{Name: x.typeName("Item"), Kind: "result", Def: &spec.Type{Kind: spec.Object}}
+	it.Def.Attrs = []*spec.Attr{
+		{Name: "ident", Type: &spec.Type{Kind: spec.Int}},
+		{Name: "name", Type: &spec.Type{Kind: spec.String}},
+		{Name: "secret", Type: &spec.Type{Kind: spec.String}},
+		{Name: "rank", Type: &spec.Type{Kind: spec.Int}},
+		{Name: "note", Type: &spec.Type{Kind: spec.String}},
+	}
+	it.Def.Required = []string{"ident", "name", "secret", "rank"}
+	it.Views = []*spec.View{
+		{Name: "default", Attrs: []spec.ViewAttr{{Name: "ident"}, {Name: "name"}}},
+		{Name: "tiny", Attrs: []spec.ViewAttr{{Name: "ident"}}},
+	}
+	x.s.Types = append(x.s.Types, it)
+	x.s.AddFeature("result-type", "multi-view", "view-omits-required")
+	return it
+}
+
+// requiredOutsideDefaultView reports whether a result type requires an attribute its default view does not list.
+func requiredOutsideDefaultView(t *spec.UserType) bool {
+	if t.Def == nil || t.Def.Kind != spec.Object {
+		return false
+	}
+	for _, v := range t.Views {
+		if v.Name != "default" {
+			continue
+		}
+		in := map[string]bool{}
+		for _, a := range v.Attrs {
+			in[a.Name] = true
+		}
+		for _, r := range t.Def.Required {
+			if !in[r] {
+				return true
+			}
+		}
+	}
+	return false
 }
 
 func inLocs(ls []spec.Loc, attr string) bool {
